@@ -332,7 +332,7 @@ fn via_builder(c: &Checksum<'_>, model: &Model, typed: bool, spell_seed: u64, at
     let surroundings = (spell_seed >> 8) % 6;
     let mut builder = GenericPurlBuilder::new(String::from("generic"), "n");
     let around: &[(&str, &str)] = match surroundings {
-        1 => &[("arch", ""), ("zzz", "1")],
+        1 => &[("arch", "x"), ("build", "7"), ("zzz", "1")],
         2 => &[("a", "1"), ("b", ""), ("z", "")],
         3 => &[("arch", "x"), ("download_url", "https://example.com/a?b=c&d")],
         4 => &[("checksum", "ff:00,ee:11")],
@@ -349,6 +349,12 @@ fn via_builder(c: &Checksum<'_>, model: &Model, typed: bool, spell_seed: u64, at
     if model.is_empty() {
         // Nothing replaces an older checksum then; keep the lane as it was for the empty set.
         builder = GenericPurlBuilder::new(String::from("generic"), "n");
+    } else if (spell_seed >> 12) % 3 == 0 {
+        // A removal before the checksum goes in: the first of the surrounding qualifiers.
+        if let Some((first, _)) = around.iter().find(|(k, _)| *k != "checksum") {
+            builder = guarded(move || builder.without_qualifier(*first))
+                .map_err(|p| violation!("C12.panic_in_builder", "{at}: without_qualifier({first:?}) panicked: {p}"))?;
+        }
     }
     ev!(log, "{at} builder surroundings {around:?}");
     let builder = if typed {
@@ -693,6 +699,8 @@ impl Sim for C12 {
             "abcdefghijklmnopqrstuv", "abcdefghijklmnopqrstuvw", "abcdefghijklmnopqrstuvwx", "ABCDEFGHIJKLMNOPQRSTUVWX",
             "a-very-long-algorithm-name-0123456789-0123456789-0123456789-0123456789-x",
             "\tsha1", "\u{3000}sha1", "sha1\t",
+            // ASCII capitals after a non-ASCII character, and a non-ASCII capital after an ASCII one.
+            "éB", "éb", "ßX", "ßx", "漢字Sum", "漢字sum", "résumé-SHA", "XÉ", "xé", "GOST-Э", "gost-э", "AΣ",
         ];
         const MODES: &[Mode] = &[
             Mode::Keyed,
